@@ -32,6 +32,10 @@ claims={
    text="Thread-local lock-discipline facts proved deductively for every session method and every FileSys outcome, valid under any interleaving: (a) at every return no SFid that is or was in the table is left locked; (b') every Unlock is of a held mutex, no Lock of a mutex already held by the same operation (self-deadlock); (c) no blocking Lock while another lock is held unless the mutex belongs to an object allocated by this call and not yet published (so no lock-order cycle between operations). Together: no fid is left locked and no operation can deadlock on the session's own locks if FileSys calls return. Level 'other': atomicity per fid / linearizability is argued from these facts plus the atomic sync.Map operations, not machine-checked, and data-race freedom is not decided by this technique.",
    note=TB+"Mutex/sync.Map extern contracts; FileSys calls assumed to return; two genuine defects repaired (fix: 2c82984 Attach lock leak, ad56075 Create self-deadlock).",
    technique="contract-based deductive verification (ghost lock ledger, SMT)"),
+ "C20":dict(level="proof",design="§3-C20",
+   text="Deductive proof on the client file-system layer with the Session below it as environment (abstract state: which fids the server has bound, how many calls were issued per fid): newFid/newEnt are strictly increasing so every new entry gets a fid larger than all earlier ones (pairwise distinct); Attach/Walk return an entry exactly when the server bound the new fid, and on every failing or partial path the set of server-bound fids is unchanged (no leak); Stat/WStat/Open/Create/Read/Write/Clunk/Remove issue exactly one session call, on the entry's own fid, Clunk/Remove leave that fid unbound; Walk sends the normalised names on the entry's fid and never touches another fid.",
+   note=TB+"Session environment contract (a complete walk onto a new fid binds it, anything else binds nothing; Clunk/Remove always unbind) - this is the C08 view; fid allocator assumed below 2^32-2 (no wrap); one genuine defect repaired (fix: cEnt.Walk compared with len(names)).",
+   technique="contract-based deductive verification (WP over go/ssa, ghost server view, SMT)"),
 }
 reasons={}
 checks=[]
